@@ -7,7 +7,8 @@ from pyvc.registry import bounded
 @bounded("C04", "unseeded_rand_outputs_and_top_bit_variants",
          bound="prime sizes 512 and 1024 (thorough: every size the shipped table lists): first 6 listed outputs per size "
                "(quick 3) x variants {as is, msb set, two msbs set} -> p = next_prime(variant), q = random prime of the "
-               "same size; sampled, not exhaustive",
+               "same size with a product of 2 * size bits, and (when the variant allows it) another q giving 2 * size - 1 "
+               "bits; sampled, not exhaustive",
          functions=["rsa_single_checks.CheckUnseededRand.Check", "special_case_factoring.FactorWithGuess"])
 def unseeded(ctx):
   from pyvc import runtime
@@ -40,13 +41,20 @@ def unseeded(ctx):
           q = int(gmpy2.next_prime(rnd.getrandbits(psize) | msb11))
           if q != p and (p * q).bit_length() == 2 * psize:
             break
-        n = p * q
-        key = pb.RSAKey()
-        key.rsa_info.n = util.Int2Bytes(n)
-        key.rsa_info.e = util.Int2Bytes(65537)
-        ret = chk.Check([key])
-        facs = util.GetAttachedFactors(key.test_info, "N_FACTORS")
-        ctx.case(key=(psize, out % 1000003, vname), sample=dict(prime_bits=psize, variant=vname))
-        ctx.check(ret is True and facs == {p, q}, "flagged and both primes recorded",
-                  dict(prime_bits=psize, variant=vname, top_bits=out >> (psize - 2), output=out), observed=[ret, facs],
-                  expected=[True, [p, q]])
+        moduli = [(p * q, q, "even")]
+        # two psize-bit primes may also have a product of 2 * psize - 1 bits (both below sqrt(2) * 2^(psize-1))
+        for _ in range(20):
+          q2 = int(gmpy2.next_prime((rnd.getrandbits(psize - 2) >> 1) | msb1))
+          if q2 != p and q2.bit_length() == psize and (p * q2).bit_length() == 2 * psize - 1:
+            moduli.append((p * q2, q2, "odd"))
+            break
+        for n, q, parity in moduli:
+          key = pb.RSAKey()
+          key.rsa_info.n = util.Int2Bytes(n)
+          key.rsa_info.e = util.Int2Bytes(65537)
+          ret = chk.Check([key])
+          facs = util.GetAttachedFactors(key.test_info, "N_FACTORS")
+          ctx.case(key=(psize, out % 1000003, vname, parity), sample=dict(prime_bits=psize, variant=vname, parity=parity))
+          ctx.check(ret is True and facs == {p, q}, "flagged and both primes recorded",
+                    dict(prime_bits=psize, variant=vname, top_bits=out >> (psize - 2), output=out,
+                         modulus_bits=n.bit_length()), observed=[ret, facs], expected=[True, [p, q]])
